@@ -435,6 +435,307 @@ Theorem C06_opmap_meaning_bounded :
   /\ template_sem "false" true true = Some false.
 Proof. vm_compute. repeat split; reflexivity. Qed.
 
+(* ================== tie T: the circuits ARE the translated code of /repo == *)
+(* coq/gen/BitvectorGen.v is produced on every run by
+   tools/py2coq_bitvector.py from the current omega/logic/bitvector.py
+   (Python ints = Z, lists of bit formulas = list bx, prefix-syntax strings
+   read as trees through a fixed template table, exceptions = None, in-place
+   list mutation = returned values, recursion on fuel).  For each translated
+   function: whenever the code returns, it returns exactly (Leibniz) what the
+   emitter model of Deep.v / Emit.v returns.  Proofs:
+   GenProofs/BitvectorBridge.v, re-checked on every run. *)
+From Omega Require Import L1Circuits.PyBits L2Compile.Emit L2Compile.EmitProofs.
+From OmegaGen Require Import BitvectorGen.
+From OmegaGP Require Import BitvectorBridge BitvectorCorrect.
+Close Scope string_scope.
+
+Definition nz := Z.to_nat.
+
+Theorem C06_circuits_are_translated_code :
+  (forall x v, g_sign x = Some v -> v = d_sign x) /\
+  (forall x n r, g_pad x n = Some r -> r = d_pad x (nz n)) /\
+  (forall x n r, g_truncate x n = Some r -> r = firstn (nz n) x) /\
+  (forall x c lg r, g_fixed_shift x c true lg true = Some r ->
+     r = d_fixed_shift_left x (nz c)) /\
+  (forall x n r, g_sign_extension x n = Some r -> r = d_sign_extension x (nz n)) /\
+  (forall x y e r, g_equalize_width x y e = Some r -> r = d_equalize_width x y (nz e)) /\
+  (forall mem more start r, g__extend_memory mem more start = Some r ->
+     r = (start + py_len more, mem ++ more)) /\
+  (forall x y add start e r, g_adder_subtractor x y add start e = Some r ->
+     r = d_adder_subtractor x y add (nz start) (nz e)) /\
+  (forall p q mem r, g_inequality p q mem = Some r -> r = d_inequality p q) /\
+  (forall p q mem r, g_less_than p q mem = Some r ->
+     r = (fst (d_less_than p q (List.length mem)), mem ++ snd (d_less_than p q (List.length mem)))) /\
+  (forall a b c start r, g_ite_function a b c start = Some r ->
+     r = d_ite_function a b c (nz start)) /\
+  (forall a b c, g_ite_connective a b c = Some (d_ite_connective a b c)) /\
+  (forall g x start r, g__negate_if g x start = Some r -> r = d_negate_if g x (nz start)) /\
+  (forall x start r, g_abs_ x start = Some r -> r = d_abs x (nz start)) /\
+  (forall fuel x y s start r, g__multiplier fuel x y s start = Some r ->
+     r = d_mult_stages x y (nz (stage s (py_len y) + 1)) (nz start)) /\
+  (forall fuel x y start r, g_multiplier fuel x y start = Some r ->
+     r = d_multiplier x y (nz start)) /\
+  (forall fuel x y s start r, g__restoring_divider fuel x y (Some s) start = Some r ->
+     r = div_result x y s start) /\
+  (forall fuel x y start r, g_restoring_divider fuel x y start = Some r ->
+     r = d_restoring_divider x y (nz start)) /\
+  (forall fuel op p q mem r, g_flatten_arithmetic fuel op p q mem = Some r ->
+     exists o, aop_of_string op = Some o /\
+       r = (fst (d_flatten_arithmetic o p q (List.length mem)),
+            mem ++ snd (d_flatten_arithmetic o p q (List.length mem)))) /\
+  (forall op x y mem r, g_flatten_comparator op x y mem = Some r ->
+     exists o, cmp_of_string op = Some o /\
+       r = (FBuf (py_len (d_comparator_mem o x y mem)) (d_comparator_mem o x y mem),
+            d_comparator_mem o x y mem)).
+Proof.
+  repeat apply conj.
+  - intros x v H. now apply g_sign_ok in H.
+  - intros x n r H. now apply g_pad_ok in H.
+  - exact g_truncate_ok.
+  - intros x c lg r H. now apply g_fixed_shift_left_ok in H.
+  - intros x n r H. now apply g_sign_extension_ok in H.
+  - intros x y e r H. now apply g_equalize_width_ok in H.
+  - intros mem more start r H. now apply g__extend_memory_ok in H.
+  - intros x y add start e r H. now apply g_adder_subtractor_ok in H.
+  - intros p q mem r H. now apply g_inequality_ok in H.
+  - intros p q mem r H. now apply g_less_than_ok in H.
+  - intros a b c start r H. now apply g_ite_function_ok in H.
+  - exact g_ite_connective_eq.
+  - intros g x start r H. now apply g__negate_if_ok in H.
+  - intros x start r H. now apply g_abs__ok in H.
+  - intros fuel x y s start r H. now apply g__multiplier_ok in H.
+  - exact g_multiplier_ok.
+  - intros fuel x y s start r H. now apply g__restoring_divider_some_ok in H.
+  - exact g_restoring_divider_ok.
+  - exact g_flatten_arithmetic_ok.
+  - exact g_flatten_comparator_ok.
+Qed.
+
+(* ... and where the widths are within the 32-bit limit the translated code
+   does not raise (the helpers, the adder, the comparators) *)
+Theorem C06_translated_code_succeeds :
+  (forall x y e, eq_guard x y e = true ->
+     g_equalize_width x y e = Some (d_equalize_width x y (nz e))) /\
+  (forall x y add start e, add_guard x y start e = true ->
+     g_adder_subtractor x y add start e = Some (d_adder_subtractor x y add (nz start) (nz e))) /\
+  (forall a b c start, List.length b = List.length c -> 0 <= start ->
+     g_ite_function a b c start = Some (d_ite_function a b c (nz start))) /\
+  (forall g x start, neg_guard x start = true ->
+     g__negate_if g x start = Some (d_negate_if g x (nz start))) /\
+  (forall op o x y mem, cmp_of_string op = Some o -> cmp_guard x y = true ->
+     g_flatten_comparator op x y mem =
+     Some (FBuf (py_len (d_comparator_mem o x y mem)) (d_comparator_mem o x y mem),
+           d_comparator_mem o x y mem)) /\
+  (forall fuel x y start, mul_guard x y start = true ->
+     (List.length x + List.length y < fuel)%nat ->
+     g_multiplier fuel x y start = Some (d_multiplier x y (nz start))) /\
+  (forall fuel x y start, div_guard x y start = true ->
+     (Nat.max (List.length x) (List.length y) + 1 < fuel)%nat ->
+     g_restoring_divider fuel x y start = Some (d_restoring_divider x y (nz start))) /\
+  (forall fuel op o p q mem, aop_of_string op = Some o -> arith_guard o p q = true ->
+     (32 < fuel)%nat ->
+     g_flatten_arithmetic fuel op p q mem =
+     Some (fst (d_flatten_arithmetic o p q (List.length mem)),
+           mem ++ snd (d_flatten_arithmetic o p q (List.length mem)))).
+Proof.
+  repeat apply conj.
+  - exact g_equalize_width_some.
+  - exact g_adder_subtractor_some.
+  - exact g_ite_function_some.
+  - exact g__negate_if_some.
+  - exact g_flatten_comparator_some.
+  - exact g_multiplier_some.
+  - exact g_restoring_divider_some.
+  - exact g_flatten_arithmetic_some.
+Qed.
+
+(* the guard of the translated flatten_arithmetic IS the static acceptance
+   condition of the value-level translator model (Expr.c_arith: operand
+   widths >= 2, result width below 32): where the model accepts, the
+   translated code returns *)
+Theorem C06_translated_arithmetic_accepts : forall fuel op o p q (vx vy : list bool) mem,
+  aop_of_string op = Some o ->
+  List.length vx = List.length p -> List.length vy = List.length q -> (32 < fuel)%nat ->
+  c_arith o vx vy <> None -> g_flatten_arithmetic fuel op p q mem <> None.
+Proof.
+  intros fuel op o p q vx vy mem Ho Lx Ly Hf A.
+  rewrite (g_flatten_arithmetic_some fuel op o p q mem Ho); [discriminate| |exact Hf].
+  rewrite (arith_guard_is_c_arith_guard o p q vx vy Lx Ly).
+  destruct (c_arith o vx vy); [reflexivity|congruence].
+Qed.
+
+(* the guards: operands of at least 2 bits, result width below
+   ALU_BITWIDTH = 32 (read from the source), start address >= 0 *)
+Example C06_guards_nonvacuous :
+  g_ALU_BITWIDTH = 32 /\
+  eq_guard [XV 0; XV 1] [XV 2; XV 3; XV 4] 1 = true /\
+  add_guard [XV 0; XV 1] [XV 2; XV 3; XV 4] 7 1 = true /\
+  neg_guard [XV 0; XV 1] 0 = true /\
+  cmp_guard [XV 0; XV 1] [XV 2; XV 3; XV 4] = true /\
+  mul_guard [XV 0; XV 1] [XV 2; XV 3; XV 4] 7 = true /\
+  div_guard [XV 0; XV 1] [XV 2; XV 3; XV 4] 7 = true /\
+  arith_guard ADiv [XV 0; XV 1] [XV 2; XV 3; XV 4] = true /\
+  cmp_of_string "=<"%string = Some CLe /\ aop_of_string "%"%string = Some AMod.
+Proof. vm_compute. repeat split; reflexivity. Qed.
+
+(* the L1 theorems (circuit = arithmetic; emitted formula evaluates to the
+   circuit, for all widths and start addresses) about the translated code *)
+Theorem C06_translated_adder_correct : forall vars x vx y vy (add : bool) e m res mem cf,
+  Forall2 (stable vars m) x vx -> Forall2 (stable vars m) y vy -> 1 <= e ->
+  g_adder_subtractor x y add (py_len m) e = Some (res, mem, cf) ->
+  let m1 := run vars m mem in
+  extends m m1 (List.length mem) /\
+  exists vr, Forall2 (stable vars m1) res vr /\
+    sval vr = (if add then sval vx + sval vy else sval vx - sval vy) /\
+    List.length vr = (Nat.max (List.length vx) (List.length vy) + Z.to_nat e)%nat.
+Proof. exact translated_adder_correct. Qed.
+
+Theorem C06_translated_multiplier_correct : forall vars fuel x vx y vy m res mem,
+  Forall2 (stable vars m) x vx -> Forall2 (stable vars m) y vy -> vx <> [] -> vy <> [] ->
+  g_multiplier fuel x y (py_len m) = Some (res, mem) ->
+  let m1 := run vars m mem in
+  extends m m1 (List.length mem) /\
+  exists vr, Forall2 (stable vars m1) res vr /\ sval vr = sval vx * sval vy /\
+    List.length vr = (List.length vx + List.length vy)%nat.
+Proof. exact translated_multiplier_correct. Qed.
+
+Theorem C06_translated_divider_correct : forall vars fuel x vx y vy m quo rem mem,
+  Forall2 (stable vars m) x vx -> Forall2 (stable vars m) y vy -> vx <> [] -> vy <> [] ->
+  sval vy <> 0 ->
+  g_restoring_divider fuel x y (py_len m) = Some (quo, rem, mem) ->
+  let m1 := run vars m mem in
+  extends m m1 (List.length mem) /\
+  exists vq vr, Forall2 (stable vars m1) quo vq /\ Forall2 (stable vars m1) rem vr /\
+    sval vq = Z.quot (sval vx) (sval vy) /\ sval vr = Z.rem (sval vx) (sval vy).
+Proof. exact translated_divider_correct. Qed.
+
+(* flatten_arithmetic(operator, p, q, mem): the cells it appends to mem and
+   the result bits; mem0 = the cells already there, evaluated from the empty
+   memory as symbolic/bdd.py does *)
+Theorem C06_translated_arithmetic_correct : forall vars fuel op x vx y vy mem0 m res mem1,
+  run vars [] mem0 = m ->
+  Forall2 (stable vars m) x vx -> Forall2 (stable vars m) y vy -> vx <> [] -> vy <> [] ->
+  g_flatten_arithmetic fuel op x y mem0 = Some (res, mem1) ->
+  exists o cells, aop_of_string op = Some o /\ mem1 = mem0 ++ cells /\
+    let m1 := run vars [] mem1 in
+    extends m m1 (List.length cells) /\
+    exists vr, Forall2 (stable vars m1) res vr /\
+      match sem_aop o (sval vx) (sval vy) with
+      | Ok v => v = VZ (sval vr)
+      | DivZero => True
+      | Ill => False
+      end.
+Proof. exact translated_arithmetic_correct. Qed.
+
+(* flatten_comparator(operator, x, y, mem): the value of the returned buffer
+   "$ n cells" is the integer comparison *)
+Theorem C06_translated_comparator_correct : forall vars op x vx y vy mem0 m buf mem1,
+  run vars [] mem0 = m ->
+  Forall2 (stable vars m) x vx -> Forall2 (stable vars m) y vy -> vx <> [] -> vy <> [] ->
+  g_flatten_comparator op x y mem0 = Some (buf, mem1) ->
+  exists o, cmp_of_string op = Some o /\
+    buf_value vars buf = Some (sem_cmp o (sval vx) (sval vy)).
+Proof. exact translated_comparator_correct. Qed.
+
+(* non-vacuity: the translated code returns on concrete operands (x of 2
+   bits, y of 3 bits whose sign is a register, start address 2), for every
+   arithmetic operator and a comparator *)
+Example C06_translated_nonvacuous :
+  let x := [XV 0; XV 1] in let y := [XV 100; XV 101; XR 0] in
+  let mem0 := [XV 7; XNot (XV 7)] in
+  (forall op, In op ["+"%string; "-"%string; "*"%string; "/"%string; "%"%string] ->
+     g_flatten_arithmetic 40 op x y mem0 <> None) /\
+  g_flatten_comparator "<="%string x y mem0 <> None /\
+  g_restoring_divider 40 x y 2 = Some (d_restoring_divider x y 2) /\
+  g_multiplier 40 x y 2 = Some (d_multiplier x y 2).
+Proof.
+  cbv zeta. split; [|split; [|split]].
+  - intros op H. cbn [In] in H.
+    repeat (destruct H as [<-|H]; [vm_compute; discriminate|]). destruct H.
+  - vm_compute. discriminate.
+  - vm_compute. reflexivity.
+  - vm_compute. reflexivity.
+Qed.
+
+(* ====== tie T, memory threading: the flatten methods of bitvector.Nodes == *)
+(* Arithmetic.flatten, Comparator.flatten, the ite branch of
+   Operator.flatten and the priming branch of Unary.flatten are translated
+   into [g_flatten] (dispatch on the class of the node, the caller's list
+   `mem` handed back, **kw opaque except kw.update(prime=True)); the methods
+   that are not translated (Var, Num, Bool, Binary) and the opaque branches
+   are the function parameter [ext_flatten].  For EVERY such function and
+   every arithmetic-scope tree on whose leaves it returns bits and leaves the
+   memory alone ([leaves_ok]): the translated methods compute the threading
+   model Thread.d_aflat / d_cmp_flat (Leibniz) ... *)
+From Omega Require Import L2Compile.Thread L2Compile.ThreadProofs.
+From OmegaGP Require Import BitvectorFlatBridge.
+
+Theorem C06_flatten_is_translated_code :
+  forall (kwargs : Type) (kw_set_prime : kwargs -> kwargs) ext_flatten,
+  (forall e fuel kw mem r st,
+     leaves_ok kwargs kw_set_prime ext_flatten e kw ->
+     g_flatten kwargs kw_set_prime ext_flatten fuel (node_of e) (Some mem) kw = Some (r, st) ->
+     r = RBits (fst (d_aflat e mem)) /\ st = Some (snd (d_aflat e mem))) /\
+  (forall op a b fuel kw r st,
+     leaves_ok kwargs kw_set_prime ext_flatten a kw ->
+     leaves_ok kwargs kw_set_prime ext_flatten b kw ->
+     g_flatten kwargs kw_set_prime ext_flatten fuel
+       (PNode "Comparator" op [node_of a; node_of b]) None kw = Some (r, st) ->
+     exists o, cmp_of_string op = Some o /\
+       r = RBuf (FBuf (py_len (d_cmp_flat o a b)) (d_cmp_flat o a b)) /\ st = None).
+Proof.
+  intros kwargs kw_set_prime ext_flatten. split.
+  - apply flatten_is_threading_model.
+  - apply comparator_flatten_is_model.
+Qed.
+
+(* ... and the threading model is sound (ThreadProofs.v): for all trees,
+   widths and bit values, after the appended cells are evaluated as
+   symbolic/bdd.py does, the returned bits have the value of the composed
+   circuits, *)
+Theorem C06_memory_threading_sound : forall vars e mem, awf e = true ->
+  let m := run vars [] mem in
+  let '(r, mem') := d_aflat e mem in
+  let m1 := run vars [] mem' in
+  (exists k, extends m m1 k) /\ Forall2 (stable vars m1) r (aval vars e).
+Proof. exact thread_sound. Qed.
+
+(* and the buffer that the translated Comparator.flatten returns evaluates
+   to the comparison of the integers denoted by the operand bits *)
+Theorem C06_translated_comparator_flatten_correct :
+  forall (kwargs : Type) (kw_set_prime : kwargs -> kwargs) ext_flatten vars
+         op a b fuel kw r st,
+  leaves_ok kwargs kw_set_prime ext_flatten a kw ->
+  leaves_ok kwargs kw_set_prime ext_flatten b kw ->
+  awf a = true -> awf b = true ->
+  g_flatten kwargs kw_set_prime ext_flatten fuel
+    (PNode "Comparator" op [node_of a; node_of b]) None kw = Some (r, st) ->
+  exists o buf, cmp_of_string op = Some o /\ r = RBuf buf /\ st = None /\
+    buf_value vars buf = Some (sem_cmp o (sval (aval vars a)) (sval (aval vars b))).
+Proof. exact translated_comparator_flatten_correct. Qed.
+
+Theorem C06_translated_flatten_threads_memory :
+  forall (kwargs : Type) (kw_set_prime : kwargs -> kwargs) ext_flatten vars
+         e fuel kw mem r st,
+  leaves_ok kwargs kw_set_prime ext_flatten e kw -> awf e = true ->
+  g_flatten kwargs kw_set_prime ext_flatten fuel (node_of e) (Some mem) kw = Some (r, st) ->
+  exists bits mem', r = RBits bits /\ st = Some mem' /\
+    (exists k, extends (run vars [] mem) (run vars [] mem') k) /\
+    Forall2 (stable vars (run vars [] mem')) bits (aval vars e).
+Proof. exact translated_flatten_threads_memory. Qed.
+
+(* non-vacuity: ite(b, x, y') * (x / 1) <= y over 2-bit variables with a
+   concrete environment for Var / Num: the hypotheses hold and the
+   translated methods return a buffer *)
+Example C06_translated_flatten_nonvacuous :
+  leaves_ok bool (fun _ => true) ex_ext ex_lhs false /\
+  leaves_ok bool (fun _ => true) ex_ext ex_rhs false /\
+  awf ex_lhs = true /\ awf ex_rhs = true /\
+  exists buf, g_flatten bool (fun _ => true) ex_ext 60
+    (PNode "Comparator" "<=" [node_of ex_lhs; node_of ex_rhs]) None false
+    = Some (RBuf buf, None).
+Proof. exact translated_flatten_nonvacuous. Qed.
+
 Print Assumptions C06_adder_exact.
 Print Assumptions C06_adder_modular.
 Print Assumptions C06_less_than_exact.
@@ -463,3 +764,15 @@ Print Assumptions C06_acceptance_static.
 Print Assumptions C06_accepts_iff.
 Print Assumptions C06_grammar_accepted_bounded.
 Print Assumptions C06_opmap_meaning_bounded.
+Print Assumptions C06_circuits_are_translated_code.
+Print Assumptions C06_translated_code_succeeds.
+Print Assumptions C06_translated_arithmetic_accepts.
+Print Assumptions C06_translated_adder_correct.
+Print Assumptions C06_translated_multiplier_correct.
+Print Assumptions C06_translated_divider_correct.
+Print Assumptions C06_translated_arithmetic_correct.
+Print Assumptions C06_translated_comparator_correct.
+Print Assumptions C06_flatten_is_translated_code.
+Print Assumptions C06_memory_threading_sound.
+Print Assumptions C06_translated_comparator_flatten_correct.
+Print Assumptions C06_translated_flatten_threads_memory.
